@@ -114,6 +114,10 @@ func (n *Node) SimPush(peer *peers.Peer, known map[uint32]int) error { return n.
 func (n *Node) SimMonologue() error                                  { return n.monologue() }
 func (n *Node) SimCheckSuspend()                                     { n.checkSuspend() }
 func (n *Node) SimProcessRPC(rpc net.RPC)                            { n.processRPC(rpc) }
+
+// SimGoProcessRPC hands the request to processRPC the way doBackgroundWork does:
+// in a routine of the node's own wait group (Suspend and Shutdown wait for it).
+func (n *Node) SimGoProcessRPC(rpc net.RPC) { n.GoFunc(func() { n.processRPC(rpc) }) }
 func (n *Node) SimFastForward() error                                { return n.fastForward() }
 func (n *Node) SimJoin() error                                       { return n.join() }
 func (n *Node) SimAddTransaction(tx []byte)                          { n.addTransaction(tx) }
